@@ -54,11 +54,34 @@ def shift_clock(seconds: float):
 if os.environ.get('VERIF_CLOCK_SHIFT'):
     shift_clock(float(os.environ['VERIF_CLOCK_SHIFT']))
 
-from vlib import common, shellbuild  # noqa: E402
+from vlib import caller, common, shellbuild  # noqa: E402
+
+
+def parse_from_file(doc):
+    """The document written to a file as UTF-8 and loaded with DznJsonAst.load_file."""
+    import tempfile  # pylint: disable=import-outside-toplevel
+    from dznpy.json_ast import DznJsonAst  # pylint: disable=import-outside-toplevel
+    with tempfile.NamedTemporaryFile('w', suffix='.json', delete=False, encoding='utf-8') as fh:
+        json.dump(doc, fh, ensure_ascii=False)
+    try:
+        with common.quiet():
+            fc = DznJsonAst().load_file(fh.name).process()
+            caller.after_parse(fc)
+        return fc
+    finally:
+        os.unlink(fh.name)
 
 
 def main():
     common.import_dznpy()
+    setup = os.environ.get('VERIF_CHILD_SETUP', '')
+    if 'logging' in setup:
+        import logging  # pylint: disable=import-outside-toplevel
+        logging.basicConfig(level=logging.DEBUG, stream=open(os.devnull, 'w', encoding='utf-8'))  # pylint: disable=consider-using-with
+    if 'warnings' in setup:
+        import warnings  # pylint: disable=import-outside-toplevel
+        warnings.simplefilter('error')
+        warnings.simplefilter('ignore', ResourceWarning)
     cases = json.load(open(sys.argv[1], encoding='utf-8'))
     order_seed = None if sys.argv[2] == 'none' else int(sys.argv[2])
     passes = int(sys.argv[3])
@@ -79,7 +102,8 @@ def main():
             if only is not None and idx != only:
                 continue
             try:
-                fc = shellbuild.parse_doc(case['doc'])
+                fc = parse_from_file(case['doc']) if os.environ.get('VERIF_MODEL_FROM_FILE') \
+                    else shellbuild.parse_doc(case['doc'])
                 if shared_cfg is not None:
                     # one Configuration object filled in anew for every job of a batch
                     import dataclasses  # pylint: disable=import-outside-toplevel
